@@ -33,6 +33,7 @@ func init() {
 		"zzSame":          zzSame,
 		"zzDocUnchanged":  zzDocUnchanged,
 		"zzOut":           zzOut,
+		"zzSnap":          zzSnap,
 		"zzOutStr":        zzOutStr,
 		"zzKindOf":        zzKindOf,
 		"zzLog":           zzLog,
@@ -77,7 +78,7 @@ func zzParam(s *State, a []Value) Value {
 	name := s.strArg(a[0])
 	v, ok := s.W.Job.Params[name]
 	if !ok {
-		if name == "json" {
+		if name == "json" || name == "shared" {
 			return "" // optional: a concrete document instead of the symbolic one
 		}
 		s.abort("missing job parameter %q", name)
@@ -303,6 +304,33 @@ func (s *State) snapshotOut(v Value) Value {
 		arr.E[i] = copyVal(e)
 	}
 	id := s.heap.alloc(arr, s.heap.get(sl.Obj).T, "out")
+	return Iface{T: iv.T, V: Slice{Obj: id, Len: len(elems), Cap: len(elems)}}
+}
+
+// zzSnap(v) returns v with every slice that is not part of an input document
+// copied, recursively (document containers are covered by document-unchanged
+// and stay shared; lazy document nodes are returned as they are).
+func zzSnap(s *State, a []Value) Value { return s.deepSnap(a[0], 0) }
+
+func (s *State) deepSnap(v Value, depth int) Value {
+	iv, ok := v.(Iface)
+	if !ok || iv.T == nil || depth > 8 {
+		return v
+	}
+	sl, ok := iv.V.(Slice)
+	if !ok || sl.Obj == 0 {
+		return v
+	}
+	o := s.heap.get(sl.Obj)
+	if o.Doc != nil || o.Tag == "json" || strings.HasPrefix(o.Tag, "doc:") {
+		return v
+	}
+	elems := s.sliceElems(sl)
+	arr := &Array{E: make([]Value, len(elems))}
+	for i, e := range elems {
+		arr.E[i] = s.deepSnap(copyVal(e), depth+1)
+	}
+	id := s.heap.alloc(arr, o.T, "snap")
 	return Iface{T: iv.T, V: Slice{Obj: id, Len: len(elems), Cap: len(elems)}}
 }
 
